@@ -56,6 +56,7 @@ def run_task(task):
                 continue
             if r.ctx.pc:
                 res['nontrivial_paths'] += 1
+            r.ctx.notes['post_path'] = True
             try:
                 vcs = vcs_fn(env, want)
             except EngineLimit as e:
